@@ -53,7 +53,7 @@ def one_case(rng, tier):
     svc = g._svc()
     if rng.random() < 0.7 and svc == [0]:
         svc = [rng.choice([0.5, 1.0, 2.0])]
-    nodes.append({'id': 'sk', 'op': 'sink', 'ups': [last], 'kind': rng.choice(['coro', 'future', 'sync', 'tornado']), 'svc': svc})
+    nodes.append({'id': 'sk', 'op': 'sink', 'ups': [last], 'kind': rng.choice(['coro', 'future', 'sync', 'tornado', 'awaitable']), 'svc': svc})
     prog = {'nodes': nodes, 'extra_edges': []}
     prods = []
     for p in range(rng.choice([1, 1, 2, 3])):
